@@ -605,6 +605,47 @@ def regenerate_frontend():
     return errors, changed
 
 
+# ======================================================================================= T-shutdown
+def generate_shutdown():
+    sys.path.insert(0, str(REPO))
+    out = ['import PwVerif.Model.Shutdown', '/-! GENERATED by harness/translate.py (T-srv, shutdown paths) from /repo - do not edit. -/', 'namespace PwVerif.Gen', 'open PwVerif.Shutdown', '']
+    errors = []
+    try:
+        c = getattr(importlib.import_module('pyworkers.remote_server'), 'RemoteServer')
+        t = Translator(c)
+        run, _ = t.func_ast('run')
+        outer = next(n for n in run.body if isinstance(n, ast.Try))
+        fin = ast.unparse(ast.Module(body=outer.finalbody, type_ignores=[]))
+        # the loop must walk the live registry itself (the SIGTERM handler walks the same list concurrently)
+        f_children = bool(re.search(r"for child in itertools\.chain\(self\.children, self\.contexts\.values\(\)\):", fin)) and 'self.children.clear()' in fin
+        f_contexts = 'self.contexts.values()' in fin.split('self.children.clear()')[0]
+        f_guard = bool(re.search(r"for child in .*:\n\s+try:", fin))
+        f_force = bool(re.search(r"child\.terminate\(timeout=1, force=True, _release_remote_ctrl=True\)", fin))
+        f_kill = bool(re.search(r"if child\.is_alive\(\):\n\s+os\.kill\(child\.pid, signal\.SIGTERM\)", fin))
+        out.append('/-- the `finally` block of `RemoteServer.run` -/')
+        out.append(f'def finallyPath : Path := {{ iteratesChildren := {str(f_children).lower()}, iteratesContexts := {str(f_contexts).lower()}, perChildGuarded := {str(f_guard).lower()}, forcedTerminate := {str(f_force).lower()}, killFallback := {str(f_kill).lower()} }}\n')
+        ih, _ = t.func_ast('install_handlers')
+        cleanup = next(n for n in ast.walk(ih) if isinstance(n, ast.FunctionDef) and n.name == 'cleanup')
+        src = ast.unparse(cleanup)
+        s_children = 'for child in self.children:' in src and src.index('for child in self.children:') < src.index('self.children.clear()')
+        s_kill = bool(re.search(r"if child\.is_alive\(\):\n\s+os\.kill\(child\.pid, signal\.SIGTERM\)", src))
+        s_reraise = 'signal.signal(signal.SIGTERM, signal.SIG_DFL)' in src and 'os.kill(os.getpid(), signal.SIGTERM)' in src
+        out.append('/-- the SIGTERM handler installed by `install_handlers` (no try needed: `os.kill` on a live child) -/')
+        out.append(f'def sigtermPath : Path := {{ iteratesChildren := {str(s_children).lower()}, iteratesContexts := false, perChildGuarded := true, forcedTerminate := false, killFallback := {str(s_kill).lower()} }}\n')
+        out.append(f'def sigtermReraisesDefault : Bool := {str(s_reraise).lower()}\n')
+    except Exception as e:
+        errors.append(f'shutdown: {type(e).__name__}: {e}')
+        out.append('def finallyPath : Path := ⟨false, false, false, false, false⟩\ndef sigtermPath : Path := ⟨false, false, false, false, false⟩\ndef sigtermReraisesDefault : Bool := false\n')
+    out.append('end PwVerif.Gen')
+    return '\n'.join(out) + '\n', errors
+
+
+def regenerate_shutdown():
+    text, errors = generate_shutdown()
+    changed = write_if_changed(LEAN / 'PwVerif' / 'Gen' / 'ShutdownPaths.lean', text)
+    return errors, changed
+
+
 if __name__ == '__main__':
     errs, meta, changed = regenerate()
     print('RunLoops.lean', 'rewritten' if changed else 'unchanged')
@@ -616,10 +657,14 @@ if __name__ == '__main__':
     print('ServerLoop.lean', 'rewritten' if changed4 else 'unchanged')
     errs5, changed5 = regenerate_frontend()
     print('Frontend.lean', 'rewritten' if changed5 else 'unchanged')
-    errs2 = errs2 + errs3 + errs4 + errs5
+    errs6, changed6 = regenerate_shutdown()
+    print('ShutdownPaths.lean', 'rewritten' if changed6 else 'unchanged')
+    errs2 = errs2 + errs3 + errs4 + errs5 + errs6
     for e in errs + errs2:
         print('UNTRANSLATABLE', e)
     sys.exit(1 if errs or errs2 else 0)
+
+
 
 
 
